@@ -68,6 +68,10 @@ class Run:
         self.logs = LogList(self)
         self.gated = False
         self.gate_kinds = tuple(self.cfg.get("gates") or ())
+        # simulators that answer synchronously (never yield to the loop inside a request),
+        # like the in-process simulators of the test-suite; "all" or a list of sids
+        sy = self.cfg.get("sync") or ()
+        self.sync = {s["sid"] for s in scen["sims"]} if sy == "all" else set(sy)
         self.loop = VLoop(chooser, early,
                           max_iterations=self.cfg.get("max_iterations", 12000))
         self.loop_errors = []
